@@ -411,6 +411,18 @@ def dir1(ctx, c):
                 kw = default.value.kw if default is not None and isinstance(default.value, Ctor) else None
                 c.check(kw == {}, site, "falls to the empty CodePackage", "default arm returns %r" % (default.value if default else None),
                         "%s falls to a default arm that is not an empty CodePackage" % m, where)
+    # the empty CodePackage occupies no space: defaults size = 0 and max_size >= size (PC-relative estimates sum max_size over every statement)
+    cp = repo.method("CodePackage", "__init__", inherited=False)
+    a_ = cp.node.args
+    names = [x.arg for x in a_.args]
+    dmap = dict(zip(names[len(names) - len(a_.defaults):], a_.defaults))
+    ds, dm = try_fold(dmap.get("size"), ctx.env) if "size" in dmap else None, try_fold(dmap.get("max_size"), ctx.env) if "max_size" in dmap else None
+    if ds is None or dm is None:
+        c.undecided("CodePackage.__init__:defaults", "defaults-not-constant", "", repo.loc(cp, cp.node))
+    else:
+        c.check(ds == 0 and dm >= ds, "CodePackage.__init__:defaults", "size 0, max_size >= size", "size=%s max_size=%s" % (ds, dm),
+                "an empty CodePackage (END, EQU, ORG, ...) reports size %s and max_size %s: directives that emit nothing must occupy 0 bytes, and a max_size below size makes PC-relative estimates too small" % (ds, dm),
+                repo.loc(cp, cp.node))
     # DIR-2 widths of the emitting arms
     want = {"FCB": ("is_multi_byte", 2, 1), "FDB": ("is_multi_word", 4, 2)}
     for m, (pred, hint, size) in want.items():
